@@ -48,8 +48,12 @@ def explore(tier, seed):
                 if coord not in renv["resolvers"] and rng.random() < 0.3:
                     renv["resolvers"][coord] = {"k": "const", "v": sg.value_for(f["type"], 3, 0.05)}
         mdl = sg.model(); mdl["sdl_extra"] = ["directive @note(t: String) on FIELD"]
-        b = loop.run_until_complete(er.build_engine(mdl, renv, directives={"note": Note()}))
-        fresh = loop.run_until_complete(er.build_engine(mdl, renv, directives={"note": Note()}))      # never sees concurrent traffic
+        # every third schema forbids introspection at schema level (per-request decision taken in a schema-level hook);
+        # every other one coerces sibling fields one by one (an introspection field may then resolve late in its request)
+        if si % 3 == 0: mdl["sdl_extra"].append("extend schema @nonIntrospectable")
+        cfg = {"coerce_parent_concurrently": False, "parent_concurrently": False} if si % 2 == 1 else None
+        b = loop.run_until_complete(er.build_engine(mdl, renv, cfg=cfg, directives={"note": Note()}))
+        fresh = loop.run_until_complete(er.build_engine(mdl, renv, cfg=cfg, directives={"note": Note()}))      # never sees concurrent traffic
         b.scribble = fresh.scribble = si % 2 == 0       # resolvers that modify their own arguments in place
         pool = []
         for _ in range(8):
@@ -65,6 +69,13 @@ def explore(tier, seed):
                     variables, _ = dg.variables_for(opvars[k2], invalid=0.1)
                     pool.append((q, ops[k2][1], variables))
         pool += [(INTROSPECTION, None, None), ("{ __typename ", None, None), ("{ nope }", None, None), (pool[0][0], "Unknown", None)]
+        # an introspection field placed AFTER awaited resolvers of the same request
+        gated = [f for f in sg.query["fields"] if f"Query.{f['name']}" in renv["resolvers"] and renv["resolvers"][f"Query.{f['name']}"]["k"] != "default"
+                 and not any(("nn" in a["type"]) and not a.get("default") for a in f["args"]) and f["name"] not in sg.echo]
+        for f in gated[:2]:
+            from gen import base as _b
+            sub = " { __typename }" if _b(f["type"]) not in sg.leaf_names else ""
+            pool.append((f"{{ {f['name']}{sub} s1: __schema {{ queryType {{ name }} }} t1: __type(name: \"Query\") {{ name }} }}", None, None))
         def solo(engine_b, req, idx=0, hide=False):
             hub = MultiHub(1)
             engine_b.gate = hub.gate
